@@ -253,6 +253,34 @@ def main(tier, seed, replay=None):
         elif o1.get("repr") != o2.get("repr"):
             rec["oracle"] = "the same members sorted/printed from two constructions give different sequences"
             run.classify_failure(None, rec)
+    # the order a set PRINTS its members in (OrderedValues: generic sets, union sets, relations) is the one order: it is the
+    # sequence `orderby .` yields.  Enumerated core (independent of the random stream): members of several kinds and of several
+    # tuple headings whose values interleave, plus the sets of the random stream above.
+    PRINT_CORE = ["{(a: 1), (a: 3), (a: 2, b: 0)}", "{(a: 1, b: 5), (a: 1, c: 2), (a: 1, b: 7), (a: 0, c: 9)}",
+                  "{(a: 2), (b: 1), (a: 1, b: 1), (a: 3, b: 0), (b: 2)}", "{(a: 1), (a: 3), (a: 2, b: 0), 1, 'x', [2]}",
+                  "{3, 1, 2, (a: 1), 'b', 'a', [1], [0, 1], {1: 2}, {1: 1}, <<2>>, <<1>>}", "{(x: {2}), (x: {1}, y: 0), (x: {3})}",
+                  "{(a: 'b'), (a: 'a', b: 1), (a: 'c')}", "{{(a: 1), (a: 3)}, {(a: 2, b: 0)}, {(a: 2)}}",
+                  "{(@: 1, @item: 2), (@: 0, @item: 5), (@: 0, @char: 98), (@: 2, @char: 97), (@: 1, @value: 0)}",
+                  "{(a: 1, b: 1), (a: 1, c: 0), (a: 0, b: 2, c: 1), (a: 2)}", "{1, 2, 3, 4, 5, 6, 7, 8, 9, (a: 5), (a: 1), (a: 3, b: 1), 'q'}",
+                  "{[1, , 2], [1, 2], [1], (a: 1), (a: 0, b: 0), 0}"]
+    preqs = [{"id": i, "src": t} for i, t in enumerate(PRINT_CORE)]
+    for i in range(0, len(sreqs), 2):
+        m = re.search(r", s: (\{.*\})\)$", sreqs[i]["src"], re.S)
+        if m:
+            preqs.append({"id": len(preqs), "src": m.group(1)})
+    oouts, _, _ = run_harness(vh, "ordered", preqs)
+    aouts, _, _ = run_harness(vh, "eval", [{"id": q["id"], "src": "(%s) orderby ." % q["src"], "budget_ms": 5000} for q in preqs])
+    nprint = 0
+    for q in preqs:
+        o, a = oouts.get(q["id"]) or {}, aouts.get(q["id"]) or {}
+        if o.get("st") != "ok" or a.get("st") != "ok" or "ord" not in o:
+            continue
+        items = sorted(((int(float(dict((k, v) for k, v in m["t"])["@"]["n"])), dict((k, v) for k, v in m["t"])["@item"]) for m in a["val"].get("s", [])),
+                       key=lambda kv: kv[0])
+        nprint += 1
+        if [v for _, v in items] != o["ord"]:
+            run.classify_failure(None, {"case": {"src": q["src"], "printed_order": True}, "observed": {"printed_order": o["ord"], "orderby": [v for _, v in items], "gotype": o.get("gotype")},
+                                        "oracle": "a set prints its members in a sequence that is not the one `orderby .` yields (printing does not follow the order <)"})
     # committed witness of the open finding about hand-written nested @neg tuples
     wouts, _, _ = run_harness(vh, "eval", [{"id": 0, "src": "(@neg: (@neg: 1)) < 2"}])
     w = wouts.get(0) or {}
